@@ -59,7 +59,9 @@ static void check_rule(unsigned n, double a, double b)
 		if(i > 0 && !((x - R[i - 1][0]) * dir > 0)) fail(key, "nodes_not_strictly_monotone", "node " + std::to_string(i) + " = " + mc::dec(x) + " after " + mc::dec(R[i - 1][0]));
 		if(!(w * dir > 0)) fail(key, "weight_sign_wrong", "weight " + std::to_string(i) + " = " + mc::dec(w));
 		if(!(std::fabs((x + R[n - 1 - i][0]) - (a + b)) <= 2 * xres + 4 * U_ * std::fabs(len))) fail(key, "nodes_not_symmetric", "x_i + x_{n-1-i} = " + mc::dec(x + R[n - 1 - i][0]) + " a+b = " + mc::dec(a + b));
-		if(!mc::same_bits(w, R[n - 1 - i][1])) fail(key, "weights_not_symmetric", "w_i = " + mc::dec(w) + " w_{n-1-i} = " + mc::dec(R[n - 1 - i][1]));
+		// symmetric to rounding (a weight computed from its own node, not copied from its mirror image, may differ in the last bits:
+		// the node is known to xres and the weight depends on it through 1/(1-z^2))
+		if(!(std::fabs(w - R[n - 1 - i][1]) <= 64 * (n + 4) * U_ * std::fabs(w))) fail(key, "weights_not_symmetric", "w_i = " + mc::dec(w) + " w_{n-1-i} = " + mc::dec(R[n - 1 - i][1]));
 		sumw += w;
 		// reference
 		ld xr = (ld)mid + (ld)hw * rz[i], wr = (ld)hw * rw[i];
